@@ -174,6 +174,9 @@ class ScipyOptimizer(LocalOptimizer):
             The individual who will be optimized.
         """
         num_params = individual.get_number_local_optimization_params()
+        if num_params == 0:
+            individual.set_local_optimization_params([])
+            return
         c_0 = np.random.uniform(*self.options["param_init_bounds"], num_params)
         params = self._run_method_for_optimization(
             self._sub_routine_for_obj_fn, individual, c_0)
